@@ -19,7 +19,15 @@ import (
 // message). Every such field of every registered open-struct type: Size must
 // equal the length of the encoding, at top level and inside a length-prefixed
 // parent, and the encoding must decode to the entry with an empty message.
-func nilComposites(c *core.Ctx) {
+// NilCompositesInitialized runs the same content through the required-field
+// checks (C10): a nil message value / element / oneof payload is an empty
+// message, so CheckInitialized and a strict Marshal must fail exactly when the
+// independent walk over the decoded encoding finds a required field unset.
+func NilCompositesInitialized(c *core.Ctx) { nilCompositesMode(c, true) }
+
+func nilComposites(c *core.Ctx) { nilCompositesMode(c, false) }
+
+func nilCompositesMode(c *core.Ctx, initOnly bool) {
 	n := 0
 	for _, mt := range univ.AllMessageTypes() {
 		zero := mt.New().Interface()
@@ -91,6 +99,24 @@ func nilComposites(c *core.Ctx) {
 			c.Eval(1)
 			c.Guard(func() string { return "nil composite " + name }, func() {
 				msg := nc.build()
+				if initOnly {
+					b, err := proto.MarshalOptions{AllowPartial: true}.Marshal(msg)
+					if err != nil {
+						return
+					}
+					ref := dynamicpb.NewMessage(md)
+					if err := (proto.UnmarshalOptions{AllowPartial: true}).Unmarshal(b, ref); err != nil {
+						return
+					}
+					want := univ.Initialized(ref)
+					if got := proto.CheckInitialized(msg) == nil; got != want {
+						c.Violation(fmt.Sprintf("CheckInitialized says initialized=%v for content that is initialized=%v (nil message value/element/payload): %s", got, want, name), fmt.Sprintf("%x", b))
+					}
+					if _, err := proto.Marshal(msg); (err == nil) != want {
+						c.Violation(fmt.Sprintf("strict Marshal error=%v for content that is initialized=%v (nil message value/element/payload): %s", err != nil, want, name), nil)
+					}
+					return
+				}
 				for _, det := range []bool{false, true} {
 					mo := proto.MarshalOptions{AllowPartial: true, Deterministic: det}
 					b, err := mo.Marshal(msg)
@@ -129,5 +155,9 @@ func nilComposites(c *core.Ctx) {
 		}
 	}
 	c.DistinctN(int64(n))
-	c.Bounds["nil_composite_fields"] = n
+	if initOnly {
+		c.Bounds["nil_composite_fields_init"] = n
+	} else {
+		c.Bounds["nil_composite_fields"] = n
+	}
 }
